@@ -31,10 +31,9 @@ theorem relay_filters_as_in_source :
     then the estimate and assignee tests (`pass2`).  `relayAux` registers the sender between `pass1` and `pass2` for exactly
     this reason; swapping two filters in the source changes which older messages block a sender. -/
 theorem relay_filter_order_as_in_source :
-    Paloma.Gen.ConstTable.andChains =
-      [("x/consensus/keeper.Keeper.GetMessagesForRelaying",
-        [["filters.IsNotBlockedByValset", "filters.IsUnprocessed", "filters.IsOldestMsgPerSender", "filters.HasGasEstimate",
-          "filters.IsAssignedTo"]])] := by decide +kernel
+    (Paloma.Gen.ConstTable.andChains.find? (·.1 == "x/consensus/keeper.Keeper.GetMessagesForRelaying")).map (·.2) =
+      some [["filters.IsNotBlockedByValset", "filters.IsUnprocessed", "filters.IsOldestMsgPerSender", "filters.HasGasEstimate",
+             "filters.IsAssignedTo"]] := by decide +kernel
 
 /-- defaults used where nothing is elected yet -/
 theorem defaults_as_in_source :
